@@ -786,7 +786,9 @@ class DirectoryRecord:
         index = bisect.bisect_left(self.children, child)
         if index != len(self.children) and self.children[index].file_ident == child.file_ident:
             if not self.children[index].is_associated_file() and not child.is_associated_file():
-                if not (self.rock_ridge is not None and self.file_identifier() == b'RR_MOVED'):
+                # Relocated directories keep their identifiers in the relocation
+                # directory, where the same one may occur more than once.
+                if not (child.rock_ridge is not None and child.rock_ridge.relocated_record()):
                     if not allow_duplicate:
                         raise pycdlibexception.PyCdlibInvalidInput('Failed adding duplicate name to parent')
 
@@ -816,7 +818,7 @@ class DirectoryRecord:
 
             # Relocated directories keep their names inside RR_MOVED, where the
             # same name may therefore legitimately occur more than once.
-            if check_overflow and self.file_identifier() != b'RR_MOVED' and rr_index < len(self.rr_children) and self.rr_children[rr_index].file_ident != child.file_ident:
+            if check_overflow and not child.rock_ridge.relocated_record() and rr_index < len(self.rr_children) and self.rr_children[rr_index].file_ident != child.file_ident:
                 other_rr = self.rr_children[rr_index].rock_ridge
                 if other_rr is not None and other_rr.name() == child.rock_ridge.name():
                     raise pycdlibexception.PyCdlibInvalidInput('Failed adding duplicate Rock Ridge name to parent')
